@@ -259,6 +259,21 @@ def run_case(case):
         return labs, [(f"{kind}|{sub}|{why.split(' ')[0]}", f"{why}\n got={util.short(got)}\n exp={util.short(exp)}")]
     if tuple(y.shape) != np.asarray(exp).shape:
         return labs, [(f"{kind}|advertised-shape", f"{tuple(y.shape)} vs {np.asarray(exp).shape}")]
+    if kind in ("swv", "cum"):
+        # the window kernels choose their own block layout; what comes out (also through persist,
+        # which must keep the advertised chunks) has to be the advertised grid
+        from vf.props import c03
+
+        _, f, _ = c03.check_array(build(), "opt")
+        if f:
+            return labs, [(f"{kind}|{b}", d) for b, d in f[:1]]
+        try:
+            p = build().persist()
+            if tuple(map(tuple, p.chunks)) != tuple(map(tuple, y.chunks)):
+                return labs, [(f"{kind}|persist-changed-chunks", f"{y.chunks} -> {p.chunks}")]
+        except Exception as e:
+            return labs, [(util.exc_bucket(f"{kind}-persist", e), util.exc_detail(e))]
+        labs = labs + ["blocks-checked"]
     return labs + ["compared"], []
 
 
